@@ -231,7 +231,6 @@ SNIPPETS = [
     ('v{i} = (1)()', False),
     ('v{i} = (1)[0]', False),
     ('a{i}, b{i} = (1, 2, 3)', False),
-    ('import nonexistent_mod{i}', False),
     ('v{i} = """multi\nline # pytype: disable=name-error\nstring""" + 1', False),
     ('v{i} = f("s"); w{i} = g("t")', False),
     ('v{i} = f(x="s") if g("t") else 0', False),
